@@ -1498,8 +1498,18 @@ class LiteralForms(ast.NodeTransformer):
     visit_FunctionDef = _function
     visit_AsyncFunctionDef = _function
 
+    # first parameter of well-known external calls: given by keyword it is the positional one
+    FIRST_PARAM = {"DataFrame": "data", "Series": "data", "concat": "objs", "to_dict": "orient", "hstack": "tup", "vstack": "tup", "asarray": "a", "sort": "a", "argsort": "a", "unique": "ar", "zeros": "shape", "empty": "shape", "ones": "shape", "full": "shape"}
+
     def visit_Call(self, node: ast.Call):
         self.generic_visit(node)
+        tail = node.func.attr if isinstance(node.func, ast.Attribute) else (node.func.id if isinstance(node.func, ast.Name) else "")
+        fp = self.FIRST_PARAM.get(tail)
+        if fp is not None and not node.args and any(k.arg == fp for k in node.keywords):
+            first = next(k for k in node.keywords if k.arg == fp)
+            node.args = [first.value]
+            node.keywords = [k for k in node.keywords if k is not first]
+            self.count += 1
         if isinstance(node.func, ast.Name) and node.func.id == "dict" and not node.args and node.keywords:
             self.count += 1
             return ast.copy_location(ast.Dict(keys=[(ast.Constant(k.arg) if k.arg is not None else None) for k in node.keywords], values=[k.value for k in node.keywords]), node)
